@@ -1,0 +1,29 @@
+//go:build !verif
+
+package parser
+
+// Synchronisation points of the lexer/parser pair. They are only observed by
+// the verification harness, which builds with the tag "verif"; without the
+// tag the hook calls compile to nothing.
+const (
+	hkLexBefore = iota
+	hkLexAfter
+	hkRunStart
+	hkRunExitBegin
+	hkRunExitEnd
+	hkEmitBefore
+	hkEmitAfter
+	hkEmitCancel
+	hkPopWaitBefore
+	hkPopWaitAfter
+	hkPush
+	hkSpawn
+	hkJoinBefore
+	hkJoinAfter
+	hkError
+	hkCancelClosed
+	hkParseExit
+)
+
+func verifHook(*lexer, int)    {}
+func verifHookH(*heredoc, int) {}
